@@ -4,6 +4,7 @@ import (
 	"context"
 	"errors"
 	"fmt"
+	"github.com/jech/storrent/protocol"
 	"io"
 	"net/http"
 	"net/http/httptest"
@@ -359,6 +360,10 @@ func requestsMain(rc *RunCtx) {
 	simrt.Sleep(2 * time.Second)
 	if !w.AwaitQuiet(time.Minute) {
 		simrt.Probe("no-final-quiescent-point")
+		if w.LoopStuck(t) {
+			// (C17's business: a cross observation under ./check C10)
+			rc.Fail("C17", "event-loop-stuck", "", "the torrent's event loop does not answer a status query any more (%d events queued)", t.SimEventLen())
+		}
 		return
 	}
 	e.checkTable("after-all-withdrawn")
@@ -592,8 +597,48 @@ func lifecycleMain(rc *RunCtx) {
 	killAt := time.Duration(st.Choice(12000)) * time.Millisecond
 	byContext := st.Bool(1, 3)
 	rc.SetSample("setup", fmt.Sprintf("magnet=%v pieces=%d peers=%d callers=%d kill at %v by context=%v", magnet, spec.Geo.NPieces, npeers, ncallers, killAt, byContext))
-	simrt.Sleep(killAt)
+	// connections that are handed to the torrent at the very step at which
+	// its deletion begins (every phase of the teardown is a yield point
+	// away): each must end up closed
+	killing := false
+	var lateFar []*simnet.Conn
+	nlate := 0
+	if !magnet && st.Bool(1, 2) {
+		nlate = 1 + st.Choice(4)
+	}
+	for k := 0; k < nlate; k++ {
+		k := k
+		simrt.GoNamed(fmt.Sprintf("late-connection%d", k), func() {
+			if !simrt.AwaitStep(func() bool { return killing }, time.Hour) {
+				return
+			}
+			for n := st.Choice(6); n > 0; n-- {
+				simrt.Y(-1)
+			}
+			sys, far := simnet.Pipe(simnet.TCPAddr(w.SysIP, w.nextPort()), simnet.TCPAddr("80.9.9.9", 9000+k), simnet.LinkCfg{}, simnet.LinkCfg{})
+			lateFar = append(lateFar, far)
+			simrt.Probe("connection-handed-over-as-deletion-begins")
+			t.NewPeer("", sys, netip.MustParseAddrPort(fmt.Sprintf("80.9.9.9:%d", 9000+k)), true,
+				protocol.HandshakeResult{Hash: hash.Hash(spec.InfoHash), Id: hash.Hash(drawBytes(st, 20))}, nil)
+		})
+	}
+	if st.Bool(1, 3) {
+		// aimed: delete the torrent while one of its pieces is being hashed
+		if simrt.AwaitStep(func() bool {
+			for i := 0; i < min(spec.Geo.NPieces, 128); i++ {
+				if t.Pieces.SimState(i) == 2 {
+					return true
+				}
+			}
+			return false
+		}, killAt+time.Millisecond) {
+			simrt.Probe("kill-aimed-at-a-piece-being-hashed")
+		}
+	} else {
+		simrt.Sleep(killAt)
+	}
 	rc.Tracef("kill (by context: %v)", byContext)
+	killing = true
 	if byContext {
 		acancel()
 		simrt.Y(-1)
@@ -639,6 +684,12 @@ func lifecycleMain(rc *RunCtx) {
 	}
 	if n, names := rc.S.LiveSys(); n > 0 {
 		rc.Fail("C17", "goroutines-left", firstWord(names[0]), "%d goroutines of the code under test are still alive ten minutes after the deletion: %v", n, names)
+	}
+	for k, far := range lateFar {
+		if !far.PeerGone() {
+			rc.Fail("C17", "connection-left-open", "handed-over-during-deletion", "connection %d, handed to Torrent.NewPeer as the deletion began, is still open ten minutes later", k)
+			break
+		}
 	}
 	for _, p := range w.Peers {
 		if p.conn != nil && !p.Closed && !p.conn.PeerGone() {
